@@ -10,7 +10,7 @@ from .shapes import (SV, SNone, SOpt, SRef, STup, SMap, SBytes, SStr, Value,
                      IntS, RealS, BoolS, ValS, OptS, RefS, MapS, CONTAINERS,
                      container_fields, fresh_name, mk_int, mk_bool)
 from .evalexpr import as_arith
-from .builtins_impl import VRange, VView, VIterCall, VEnumerate
+from .builtins_impl import VRange, VView, VIterCall, VEnumerate, VGenCall
 
 
 def assigned_names(nodes):
@@ -157,6 +157,11 @@ def run_loop(ex, node, kind):
             from .builtins_impl import alloc_container
             empty = list(P.read_field(alloc_container(ex, d.shape), 'has').comps)
             ex.bind(spec.get('seen', '_seen'), SMap(seen_shape, empty))
+        elif isinstance(it, VGenCall) or (isinstance(it, VEnumerate) and isinstance(it.inner, VGenCall)):
+            mode = 'gencall'
+            aux['gen'] = it if isinstance(it, VGenCall) else it.inner
+            aux['enum'] = isinstance(it, VEnumerate)
+            ex.bind(idx_name, mk_int(0))
         elif isinstance(it, VIterCall):
             mode = 'itercall'
             aux['f'], aux['sentinel'] = it.f, it.sentinel
@@ -170,7 +175,7 @@ def run_loop(ex, node, kind):
     if ex.contract is not None:
         assume_instances(ex, ex.contract, spec.get('instantiate'))
     prove_clauses(ex, label + '.entry', inv)
-    head_extra = [idx_name] if mode in ('range', 'list', 'enum') else ([spec.get('seen', '_seen')] if mode == 'view' else [])
+    head_extra = [idx_name] if mode in ('range', 'list', 'enum', 'gencall') else ([spec.get('seen', '_seen')] if mode == 'view' else [])
     apply_havoc(ex, spec, node.body + ([node.target] if kind == 'for' else []) , head_extra)
     assume_clauses(ex, inv)
     from .contracts import assume_instances
@@ -239,6 +244,26 @@ def run_loop(ex, node, kind):
                     qelem = qv if aux['kind'] == 'values' else STup([q, qv])
                 sel = z3.And(sel, aux['filter'](qelem))
             P.assume(z3.ForAll(qs, z3.Implies(sel, seen.shape.select(seen, q).e)))
+    elif mode == 'gencall':
+        # one more value from the generator, of which its contract's
+        # yields['item'] clauses hold (in the state of this moment); or it is
+        # exhausted.  Nothing is assumed about *which* values come or how many.
+        i = as_arith(ex.lookup(idx_name))
+        P.assume(i >= 0)
+        go = P.choose(2) == 0
+        if go:
+            gen = aux['gen']
+            gc = gen.contract
+            elem = gc.yields['shape'].fresh('yielded')
+            P._assume_wf(elem)
+            env = {}
+            pnames = list(gc.params)
+            for pn, av in zip(pnames, gen.args):
+                env[pn] = av
+            env['item'] = elem
+            for lab, expr in gc.yields['item'].items():
+                P.assume(ex.spec_bool(expr, env), tag=lab)
+            ex.assign_target(node.target, STup([SV(IntS, i), elem]) if aux['enum'] else elem)
     elif mode == 'itercall':
         v = ex.call_value(aux['f'], [], {})
         go = not P.decide(ex.eq(v, aux['sentinel']))
@@ -260,7 +285,7 @@ def run_loop(ex, node, kind):
     if mode == 'range':
         i = as_arith(ex.lookup(idx_name))
         ex.bind(idx_name, SV(IntS, i - 1 if aux['rev'] else i + 1))
-    elif mode in ('list', 'enum'):
+    elif mode in ('list', 'enum', 'gencall'):
         i = as_arith(ex.lookup(idx_name))
         ex.bind(idx_name, SV(IntS, i + 1))
     elif mode == 'view':
@@ -278,10 +303,17 @@ def run_yield(ex, node):
     spec = c.yields if c is not None else None
     if spec is None:
         raise Unsupported('yield without a "yields" spec in the contract')
-    if node.value is not None:
-        ex.ev(node.value)
+    yielded = ex.ev(node.value) if node.value is not None else SNone()
     inv = spec.get('inv', {})
     prove_clauses(ex, 'yield.inv', inv)
+    if 'item' in spec:
+        # what consumers of this generator are told about each yielded value
+        ex.push_scope()
+        try:
+            ex.bind('item', yielded)
+            prove_clauses(ex, 'yield.item', spec['item'])
+        finally:
+            ex.pop_scope()
     from .contracts import havoc_modifies
     before = ex.path.snapshot()
     havoc_modifies(ex, spec.get('env_modifies', []), ex)
